@@ -35,6 +35,9 @@ def w_valid(arg):
             res["crashed"] += 1
         elif not pipeline.valid_fragment(obs["out"]):
             res["violations"].append({"kind": "format_code_output_invalid", "input": text, "detail": {"options": case.get("options"), "out": obs["out"][-1500:]}, "replay": replay})
+        elif pipeline.compiles(text) and not pipeline.compiles(obs["out"]):
+            # parses, but is not a module the compiler accepts (a return that ended up outside its function, a break outside its loop)
+            res["violations"].append({"kind": "format_code_output_does_not_compile", "input": text, "detail": {"options": case.get("options"), "out": obs["out"][-1500:]}, "replay": replay})
         for st in obs["steps"]:
             if st["out"] is None or not pipeline.valid_fragment(st["in"]):
                 continue
@@ -43,7 +46,7 @@ def w_valid(arg):
                 res["steps_changed"] += 1
                 res["rules_changed"][st["rule"]] = res["rules_changed"].get(st["rule"], 0) + 1
                 res["nontrivial"].append(env.digest(st["rule"] + st["in"]))
-                if not pipeline.valid_fragment(st["out"]):
+                if not pipeline.valid_fragment(st["out"]) or (pipeline.compiles(st["in"]) and not pipeline.compiles(st["out"])):
                     res["violations"].append({"kind": "rule_output_invalid", "rule": st["rule"], "input": st["in"], "detail": {"out": st["out"][-1500:], "in_pipeline": True}, "replay": replay})
         if arg.get("isolated", True) and pipeline.valid(text):
             for key in rules:
@@ -58,7 +61,7 @@ def w_valid(arg):
                 if isinstance(out, str) and out != text:
                     res["isolated_changed"] += 1
                     res["nontrivial"].append(env.digest(qual + text))
-                    if not pipeline.valid(out):
+                    if not pipeline.valid(out) or (pipeline.compiles(text) and not pipeline.compiles(out)):
                         res["violations"].append({"kind": "rule_output_invalid", "rule": qual, "input": text, "detail": {"out": out[-1500:], "in_pipeline": False}, "replay": replay})
                     elif len(res["samples"]) < 1 and len(text) < 300:
                         res["samples"].append({"rule": qual, "in": text, "out": out})
@@ -266,7 +269,7 @@ def main() -> int:
     cases = []
     names = sorted(hostile.CONSTRUCTS)
     for i, n in enumerate(names):
-        for pos in (hostile.POSITIONS if thorough else [hostile.POSITIONS[i % len(hostile.POSITIONS)], "indented_fragment", "last_no_newline"]):
+        for pos in (hostile.POSITIONS if thorough else dict.fromkeys(["alone", hostile.POSITIONS[i % len(hostile.POSITIONS)], "indented_fragment", "last_no_newline"])):
             cases.append({"id": f"zoo:{n}:{pos}", "text": hostile.place(hostile.CONSTRUCTS[n], pos), "options": c04.OPTION_VECTORS[(i + len(pos)) % len(c04.OPTION_VECTORS)]})
     ex = corpus.repo_examples()
     for o, t in (ex if thorough else r.sample(ex, 320)):
